@@ -473,11 +473,17 @@ impl Process {
     ///
     /// This function sets the disposition to the given value and returns the
     /// previous disposition.
+    ///
+    /// As required by POSIX, setting the disposition to `Ignore` discards any
+    /// pending instance of the signal, whether or not it is blocked.
     pub fn set_disposition(
         &mut self,
         number: signal::Number,
         disposition: Disposition,
     ) -> Disposition {
+        if disposition == Disposition::Ignore {
+            self.pending_signals.remove(number).ok();
+        }
         let old_disposition = self.dispositions.insert(number, disposition);
         old_disposition.unwrap_or_default()
     }
@@ -1015,5 +1021,31 @@ mod tests {
         );
         assert_eq!(process.state(), ProcessState::Running);
         assert_eq!(process.caught_signals, [signal::SIGCHLD]);
+    }
+
+    #[test]
+    fn process_set_disposition_ignore_discards_pending_signal() {
+        let mut process = Process::with_parent_and_group(Pid(42), Pid(11));
+        let _ = process.block_signals(SigmaskOp::Add, [signal::SIGINT, signal::SIGQUIT]);
+        let _ = process.raise_signal(signal::SIGINT);
+        let _ = process.raise_signal(signal::SIGQUIT);
+        assert_eq!(process.pending_signals.contains(signal::SIGINT), Ok(true));
+
+        process.set_disposition(signal::SIGINT, Disposition::Ignore);
+        assert_eq!(process.pending_signals.contains(signal::SIGINT), Ok(false));
+        assert_eq!(process.pending_signals.contains(signal::SIGQUIT), Ok(true));
+
+        process.set_disposition(signal::SIGINT, Disposition::Catch);
+        process.set_disposition(signal::SIGQUIT, Disposition::Catch);
+        let result = process.block_signals(SigmaskOp::Set, []);
+        assert_eq!(
+            result,
+            SignalResult {
+                delivered: true,
+                caught: true,
+                process_state_changed: false,
+            }
+        );
+        assert_eq!(process.caught_signals, [signal::SIGQUIT]);
     }
 }
